@@ -40,6 +40,7 @@ fn main() {
             x => { a.extra.push(x.to_string()); i += 1; },
         }
     }
+    common::start_watchdog(&argv[1].to_uppercase(), &a.out, a.replay.is_some());
     // replays of conversation cases are shared by several properties
     if let Some(r) = &a.replay {
         let prop = argv[1].to_uppercase();
